@@ -157,4 +157,32 @@ C11_BALANCED_HOLDOUT = dict(
     raises=[("fraction must be between 0 and 1", 5)],
 )
 
-ALL = [C16_FILTER, C17_SAMPLE, C11_GENERATE_PLATES, C11_SMOOTH_PLATES, C13_MERGEMIN_SAMPLE_ID, C13_MERGEMIN, C11_BALANCED_HOLDOUT]
+# MergeTopBottomPlateSmoother (retrospective.py): same conventions as MergeMin; no random / heap answers are consumed.
+C13_MERGETB_SAMPLE_ID = dict(C13_MERGEMIN_SAMPLE_ID, cls="MergeTopBottomPlateSmoother", name="src_merge_tb_get_plate_sample_id")
+C13_MERGETB = dict(
+    file="src/batchie/retrospective.py", cls="MergeTopBottomPlateSmoother", func="_smooth_plates",
+    out="SrcRetro.v", imports="Model.Encode Model.Screen Model.Retro", name="src_merge_tb_smooth_plates",
+    pyparams=["self", "screen", "rng"], unused_params=["rng"],
+    params=[("n_iter", "Z"), ("screen", "screen_t")],
+    returns="screen_t",
+    vars={"current_screen": "screen_t", "sample_id": "name", "i": "Z", "plates": "list bvec", "halfway": "Z",
+          "smaller_plate": "bvec", "bigger_plate": "bvec"},
+    eqb={"name": "name_eqb"},
+    prims=[
+        ("self.n_iterations", "n_iter", "Z"),
+        ("__s.unique_sample_ids", "sample_names {s}", "list name", {"s": "screen_t"}),
+        ("__s.plates", "plates_of {s}", "list bvec", {"s": "screen_t"}),
+        ("self._get_plate_sample_id(__p)", "!src_merge_tb_get_plate_sample_id current_screen' {p}", "name", {"p": "bvec"}),
+        ("math.floor(len(__l) / 2)", "zlen {l} / 2", "Z"),               # floor of the true quotient = integer quotient
+        ("len(__l)", "zlen {l}", "Z"),
+        ("sorted(__l, key=lambda x: x.size)", "sort_sz {l}", "list bvec"),   # stable sort by size
+        ("zip(__a, __b)", "combine {a} {b}", "list (bvec * bvec)", {"a": "list bvec", "b": "list bvec"}),
+        ("list(reversed(__l))", "rev {l}", "list bvec", {"l": "list bvec"}),
+        ("__l[:__n]", "firstn (Z.to_nat {n}) {l}", "list bvec", {"l": "list bvec", "n": "Z"}),
+    ],
+    effects=[("__b.merge(__a)", "current_screen'", "snd (merge {b} {a} {state})")],   # Plate.merge relabels in the parent
+    ignore=["logger.info(__a)"],
+)
+
+ALL = [C16_FILTER, C17_SAMPLE, C11_GENERATE_PLATES, C11_SMOOTH_PLATES, C13_MERGEMIN_SAMPLE_ID, C13_MERGEMIN, C11_BALANCED_HOLDOUT,
+       C13_MERGETB_SAMPLE_ID, C13_MERGETB]
